@@ -395,7 +395,7 @@ func genC18(c *Ctx) {
 			c.Emit("weights " + s)
 		}
 	}
-	n := c.Scale(14000, 1400000)
+	n := c.Scale(14000, 700000)
 	for k := 0; k < n; k++ {
 		size := 3 + c.R.Intn(6)
 		var p *tak.Position
@@ -442,6 +442,10 @@ func genC18(c *Ctx) {
 		}
 		if inDomain {
 			c.Count("check.default=" + c.Emit("evalcheck default "+tok))
+			if c.R.Chance(1, 3) {
+				// the hypotheses of the rule-book form of the theorems (C02's WFBoard and ReservesOK)
+				c.Count("rulebook-hypotheses=" + c.Emit("wfb "+dumpPos(p)))
+			}
 		}
 		switch c.R.Intn(6) {
 		case 0:
@@ -771,7 +775,7 @@ func junctionBoard(r *RNG, size int, c *Ctx) *tak.Position {
 }
 
 func genC19(c *Ctx) {
-	n := c.Scale(12000, 2400000)
+	n := c.Scale(12000, 600000)
 	for k := 0; k < n; k++ {
 		size := 3 + c.R.Intn(6)
 		if c.R.Chance(1, 3) {
